@@ -170,7 +170,12 @@ def run(ctx):
         try:
             lres = loop_table(LoopAnalysis.run(copy.deepcopy(ast), strict=False))
         except Exception as e:
+            # no result table at all: whatever the reason, the loops of the file did not get their one result each
             ctx.count('loop_mode_raised_' + type(e).__name__)
+            n_l = sum(len(FindLoops(copy.deepcopy(f_)).loops) for f_ in fs)
+            if n_l:
+                ctx.violation({'kind': 'loop-mode-gives-no-results', 'exception': type(e).__name__},
+                              f'LoopAnalysis.run raised {type(e).__name__} on a file with {n_l} loops: `{src[:200]}`', {'src': src})
             continue
         for fn in fs:
             # "non-empty body": the body is not the empty statement once the unsupported statements are
